@@ -154,8 +154,6 @@ func (s *muxerStream) initialize() error {
 }
 
 func (s *muxerStream) close() {
-	s.closed = true
-
 	for _, segment := range s.segments {
 		segment.close()
 	}
